@@ -97,6 +97,8 @@ def receiver_level(ctx, rng, n, pid):
 def run(ctx):
     quick = ctx.quick
     rng = ctx.rng.fork("C02")
+    wit = asmlib.run_witnesses(ctx, ['normal', 'F2', 'F8'])
+    ctx.coverage["coq_witness_histories_on_impl"] = wit
     masks = list(range(64))
     scs = txscen.single_transmissions(rng, 64 * (6 if quick else 60), masks=masks) + txscen.stale_history(rng, 30 if quick else 300)
     mism, fam, nontriv, samples = run_family(ctx, "C02", txoracle.check_c02, scs, rng)
